@@ -52,3 +52,27 @@ Proofs/QueriesFacts.vos Proofs/QueriesFacts.vok Proofs/QueriesFacts.required_vos
 Props/C03.vo Props/C03.glob Props/C03.v.beautified Props/C03.required_vo: Props/C03.v Model/FM.vo Model/Queries.vo Proofs/FMFacts.vo Proofs/QueriesFacts.vo
 Props/C03.vio: Props/C03.v Model/FM.vio Model/Queries.vio Proofs/FMFacts.vio Proofs/QueriesFacts.vio
 Props/C03.vos Props/C03.vok Props/C03.required_vos: Props/C03.v Model/FM.vos Model/Queries.vos Proofs/FMFacts.vos Proofs/QueriesFacts.vos
+Proofs/C13Facts.vo Proofs/C13Facts.glob Proofs/C13Facts.v.beautified Proofs/C13Facts.required_vo: Proofs/C13Facts.v Base/Result.vo Base/Str.vo Model/Ast.vo Model/FM.vo Model/Ctc.vo Model/Queries.vo Model/Sem.vo Model/Ops.vo
+Proofs/C13Facts.vio: Proofs/C13Facts.v Base/Result.vio Base/Str.vio Model/Ast.vio Model/FM.vio Model/Ctc.vio Model/Queries.vio Model/Sem.vio Model/Ops.vio
+Proofs/C13Facts.vos Proofs/C13Facts.vok Proofs/C13Facts.required_vos: Proofs/C13Facts.v Base/Result.vos Base/Str.vos Model/Ast.vos Model/FM.vos Model/Ctc.vos Model/Queries.vos Model/Sem.vos Model/Ops.vos
+Proofs/C14Facts.vo Proofs/C14Facts.glob Proofs/C14Facts.v.beautified Proofs/C14Facts.required_vo: Proofs/C14Facts.v Base/Result.vo Base/Str.vo Base/AstOp.vo Model/Ast.vo Model/FM.vo Model/Ctc.vo Model/Queries.vo Model/Sem.vo Model/Ops.vo Proofs/FMFacts.vo Proofs/QueriesFacts.vo
+Proofs/C14Facts.vio: Proofs/C14Facts.v Base/Result.vio Base/Str.vio Base/AstOp.vio Model/Ast.vio Model/FM.vio Model/Ctc.vio Model/Queries.vio Model/Sem.vio Model/Ops.vio Proofs/FMFacts.vio Proofs/QueriesFacts.vio
+Proofs/C14Facts.vos Proofs/C14Facts.vok Proofs/C14Facts.required_vos: Proofs/C14Facts.v Base/Result.vos Base/Str.vos Base/AstOp.vos Model/Ast.vos Model/FM.vos Model/Ctc.vos Model/Queries.vos Model/Sem.vos Model/Ops.vos Proofs/FMFacts.vos Proofs/QueriesFacts.vos
+Proofs/C15Facts.vo Proofs/C15Facts.glob Proofs/C15Facts.v.beautified Proofs/C15Facts.required_vo: Proofs/C15Facts.v Base/Result.vo Base/Str.vo Base/AstOp.vo Model/Ast.vo Model/FM.vo Model/Ctc.vo Model/Queries.vo Model/Sem.vo Model/Ops.vo Proofs/FMFacts.vo Proofs/QueriesFacts.vo Proofs/C14Facts.vo
+Proofs/C15Facts.vio: Proofs/C15Facts.v Base/Result.vio Base/Str.vio Base/AstOp.vio Model/Ast.vio Model/FM.vio Model/Ctc.vio Model/Queries.vio Model/Sem.vio Model/Ops.vio Proofs/FMFacts.vio Proofs/QueriesFacts.vio Proofs/C14Facts.vio
+Proofs/C15Facts.vos Proofs/C15Facts.vok Proofs/C15Facts.required_vos: Proofs/C15Facts.v Base/Result.vos Base/Str.vos Base/AstOp.vos Model/Ast.vos Model/FM.vos Model/Ctc.vos Model/Queries.vos Model/Sem.vos Model/Ops.vos Proofs/FMFacts.vos Proofs/QueriesFacts.vos Proofs/C14Facts.vos
+Proofs/C16Facts.vo Proofs/C16Facts.glob Proofs/C16Facts.v.beautified Proofs/C16Facts.required_vo: Proofs/C16Facts.v Base/Result.vo Base/Str.vo Base/PyFloat.vo Model/Ast.vo Model/FM.vo Model/Ctc.vo Model/Queries.vo Model/Sem.vo Model/Ops.vo Proofs/FMFacts.vo
+Proofs/C16Facts.vio: Proofs/C16Facts.v Base/Result.vio Base/Str.vio Base/PyFloat.vio Model/Ast.vio Model/FM.vio Model/Ctc.vio Model/Queries.vio Model/Sem.vio Model/Ops.vio Proofs/FMFacts.vio
+Proofs/C16Facts.vos Proofs/C16Facts.vok Proofs/C16Facts.required_vos: Proofs/C16Facts.v Base/Result.vos Base/Str.vos Base/PyFloat.vos Model/Ast.vos Model/FM.vos Model/Ctc.vos Model/Queries.vos Model/Sem.vos Model/Ops.vos Proofs/FMFacts.vos
+Props/C13.vo Props/C13.glob Props/C13.v.beautified Props/C13.required_vo: Props/C13.v Model/FM.vo Model/Sem.vo Model/Ops.vo Proofs/C13Facts.vo
+Props/C13.vio: Props/C13.v Model/FM.vio Model/Sem.vio Model/Ops.vio Proofs/C13Facts.vio
+Props/C13.vos Props/C13.vok Props/C13.required_vos: Props/C13.v Model/FM.vos Model/Sem.vos Model/Ops.vos Proofs/C13Facts.vos
+Props/C14.vo Props/C14.glob Props/C14.v.beautified Props/C14.required_vo: Props/C14.v Model/FM.vo Model/Sem.vo Model/Ops.vo Proofs/C14Facts.vo
+Props/C14.vio: Props/C14.v Model/FM.vio Model/Sem.vio Model/Ops.vio Proofs/C14Facts.vio
+Props/C14.vos Props/C14.vok Props/C14.required_vos: Props/C14.v Model/FM.vos Model/Sem.vos Model/Ops.vos Proofs/C14Facts.vos
+Props/C15.vo Props/C15.glob Props/C15.v.beautified Props/C15.required_vo: Props/C15.v Model/FM.vo Model/Sem.vo Model/Ops.vo Proofs/C15Facts.vo
+Props/C15.vio: Props/C15.v Model/FM.vio Model/Sem.vio Model/Ops.vio Proofs/C15Facts.vio
+Props/C15.vos Props/C15.vok Props/C15.required_vos: Props/C15.v Model/FM.vos Model/Sem.vos Model/Ops.vos Proofs/C15Facts.vos
+Props/C16.vo Props/C16.glob Props/C16.v.beautified Props/C16.required_vo: Props/C16.v Base/PyFloat.vo Model/FM.vo Model/Queries.vo Model/Ops.vo Proofs/C16Facts.vo
+Props/C16.vio: Props/C16.v Base/PyFloat.vio Model/FM.vio Model/Queries.vio Model/Ops.vio Proofs/C16Facts.vio
+Props/C16.vos Props/C16.vok Props/C16.required_vos: Props/C16.v Base/PyFloat.vos Model/FM.vos Model/Queries.vos Model/Ops.vos Proofs/C16Facts.vos
